@@ -50,7 +50,14 @@ def rename_rule(ctx, prog, rid):
         # position of the element: `enumerate(rIds[, start])` gives idx = i + start; `range(len(rIds))` gives idx = i
         it, env, rv = n.iter, None, None
         part_var = None
-        if isinstance(it, ast.Call) and dotted(it.func) == "enumerate" and it.args and isinstance(it.args[0], ast.GeneratorExp) \
+        if isinstance(it, ast.Call) and dotted(it.func) == "enumerate" and it.args and isinstance(it.args[0], ast.Name) \
+                and isinstance(val.get(it.args[0].id), (ast.ListComp, ast.GeneratorExp)):
+            # the parts collected first: `parts = [self.related_part(rId) for rId in rIds]; for i, part in enumerate(parts)`
+            import copy as _copy
+
+            it = _copy.copy(it)
+            it.args = [val[it.args[0].id]] + list(it.args[1:])
+        if isinstance(it, ast.Call) and dotted(it.func) == "enumerate" and it.args and isinstance(it.args[0], (ast.GeneratorExp, ast.ListComp)) \
                 and len(it.args[0].generators) == 1 and not it.args[0].generators[0].ifs and dotted(it.args[0].generators[0].iter) == rparam \
                 and isinstance(it.args[0].generators[0].target, ast.Name) and isinstance(it.args[0].elt, ast.Call) \
                 and dotted(it.args[0].elt.func) == "self.related_part" and [dotted(a_) for a_ in it.args[0].elt.args] == [it.args[0].generators[0].target.id] \
@@ -85,6 +92,26 @@ def rename_rule(ctx, prog, rid):
     if not recognised:
         ctx.error("PresentationPart.rename_slide_parts", "the loop over the relationship ids with their positions is not recognised")
         return
+    # the renaming must not be skipped: an early return in front of the loop needs a condition that establishes the *positional* names;
+    # a condition built from order-insensitive aggregates only (sets, sorted(), len, sum ...) cannot - a permutation of the parts
+    # satisfies it too, so a deck whose slide parts are contiguous but out of presentation order is left as it is
+    for st in rx.body:
+        if isinstance(st, ast.For):
+            break
+        if isinstance(st, ast.If) and any(isinstance(x, ast.Return) for x in ast.walk(st)):
+            t = st.test
+            positional = any(isinstance(x, ast.Call) and dotted(x.func) in ("enumerate", "zip") for x in ast.walk(t)) or any(
+                isinstance(x, ast.Subscript) for x in ast.walk(t))
+            insensitive = any(isinstance(x, ast.SetComp) or (isinstance(x, ast.Call) and dotted(x.func) in ("set", "frozenset", "sorted", "len", "sum", "Counter"))
+                              for x in ast.walk(t))
+            if insensitive and not positional:
+                ctx.violation(rid, "PresentationPart.rename_slide_parts", "the renaming is skipped when `%s` holds, a condition that does not depend on "
+                              "the order of the parts: slide parts that carry the numbers 1..n in another order than the presentation's keep "
+                              "their names, and slide<k>.xml is not the k-th slide" % ast.unparse(t)[:90], file=pp.file, line=st.lineno)
+            else:
+                ctx.error("PresentationPart.rename_slide_parts", "the renaming is skipped under `%s`; whether that establishes the positional names "
+                          "is not decided" % ast.unparse(t)[:80])
+            return
     if good:
         ctx.ok(rid, "PresentationPart.rename_slide_parts", sample={"name": "/ppt/slides/slide<i+1>.xml for the i-th rId, unconditionally"})
     else:
